@@ -130,3 +130,10 @@ Definition xpath_core_library : list string :=
     at least 30 sites must have been found, so that an empty extraction cannot pass *)
 Definition check_slice_discipline (sites : list (string * string * bool)) : bool :=
   forallb (fun s => snd s) sites && Nat.leb 30 (length sites).
+
+(** C13 / C14: outside init(), no function of the library packages writes package-level
+    state (assignment, ++/--, address-of, delete, or a method call on a package-level
+    sync/atomic object); [npkgs] is the number of package directories the translator
+    read, so that an extraction that read nothing cannot pass *)
+Definition check_no_global_writes (npkgs : nat) (sites : list (string * string)) : bool :=
+  match sites with [] => Nat.leb 5 npkgs | _ => false end.
